@@ -415,6 +415,8 @@ def change_op():
         # directed ops: construct the rare shapes instead of waiting for them
         st.fixed_dictionaries(dict(op=st.just('touch_restat_input'), a=st.integers(0, 30))),
         st.fixed_dictionaries(dict(op=st.just('edit_hidden'), a=st.integers(0, 30))),
+        # a statement that gets 'restat' from a dyndep file which is itself rebuilt in the same build reproduces its output
+        st.fixed_dictionaries(dict(op=st.just('dd_restat_noop'), a=st.integers(0, 30))),
     )
 
 
